@@ -80,6 +80,59 @@ theorem reallocations_logarithmic (c : HCfg) (hthr : ∀ x, x / 4 ≤ c.thr x) (
     have := (Nat.log2_lt (by omega)).mp hlt
     omega
 
+/-- `capacity_pow2`, for every reachable state -/
+theorem capacity_pow2 (c : HCfg) (t : HashTable) (h : t.Inv c) : ∃ k, k < 32 ∧ t.capacity = 2 ^ k := h.1
+
+/-- the bucket block has exactly `capacity` slots (a hash table has no `size ≤ capacity` invariant:
+chains hold any number of entries; what bounds `size` is the load factor, next theorem) -/
+theorem bucket_block_eq_capacity (c : HCfg) (t : HashTable) (h : t.Inv c) : t.buckets.length = t.capacity := h.2.1
+
+/-- `load_factor_respected` after every successful insertion -/
+theorem load_factor_respected (c : HCfg) (t : HashTable) (k : Key) (v : Nat) (m : Mem) (h : t.Inv c)
+    (hok : (t.add c k v m).1 = .ok) : (t.add c k v m).2.1.size ≤ c.thr (t.add c k v m).2.1.capacity :=
+  load_bound_after_insert c t k v m h hok
+
+/-- `growth_strict`: every growth step strictly increases the capacity -/
+theorem growth_strict (c : HCfg) (t : HashTable) (m : Mem) (h : t.Inv c)
+    (hmax : t.capacity ≠ Gen.MAX_POW_TWO) (ha : m.alloc.1 = true) :
+    t.capacity < (t.resize c (t.capacity <<< 1) m).2.1.capacity := by
+  rw [resize_doubles c t m h hmax ha]
+  have := cap_pos t h.1
+  omega
+
+/-- capacity never shrinks during an insertion -/
+theorem capacity_monotone (c : HCfg) (t : HashTable) (k : Key) (v : Nat) (m : Mem) (h : t.Inv c) :
+    t.capacity ≤ (t.add c k v m).2.1.capacity := by
+  obtain ⟨j, hj⟩ := (growth_doubles c t k v m h).1
+  rw [hj]; exact Nat.le_mul_of_pos_right _ (Nat.two_pow_pos j)
+
+/-- **`appends_realloc_log`**.  The hash table does not follow the abstract process
+`CC.Growth.appends` (which grows when `size = capacity`): its trigger is `size ≥ thr capacity`, so
+the bound is derived directly on the model.  `n` insertions into a table with `size` entries perform
+`j` bucket-array allocations (every other allocation is a new entry) with
+`j ≤ log2 (size + n + 1) + 3` for every load factor ≥ 0.25 — the `+ 3` is the factor 8 =
+2 / 0.25 between the entry count and the capacity. -/
+theorem appends_realloc_log (c : HCfg) (hthr : ∀ x, x / 4 ≤ c.thr x) (t : HashTable)
+    (kvs : List (Key × Nat)) (m : Mem) (h : t.Inv c) :
+    ∃ j, (HashTable.addMany c t kvs m).1.capacity = t.capacity * 2 ^ j ∧
+      (HashTable.addMany c t kvs m).2.nalloc = m.nalloc + j + ((HashTable.addMany c t kvs m).1.size - t.size) ∧
+      j ≤ Nat.log2 (t.size + kvs.length + 1) + 3 := by
+  obtain ⟨j, h1, h2, h3, h4, h5⟩ := HashTable.addMany_count c hthr t kvs m h
+  refine ⟨j, h1, h2, ?_⟩
+  rcases h5 with h5 | h5
+  · omega
+  · have hc : 0 < t.capacity := cap_pos t h.1
+    have h2j : 2 ^ j ≤ t.capacity * 2 ^ j := Nat.le_mul_of_pos_left _ hc
+    have hX : 2 ^ j < 8 * (t.size + kvs.length + 1) := by omega
+    apply Classical.byContradiction
+    intro hn
+    have hj4 : Nat.log2 (t.size + kvs.length + 1) < j - 3 := by omega
+    have hlt := (Nat.log2_lt (by omega)).mp hj4
+    have hpow : 2 ^ j = 2 ^ (j - 3) * 8 := by
+      have : j = (j - 3) + 3 := by omega
+      conv => lhs; rw [this, Nat.pow_add]
+    omega
+
 /-- non-vacuity: capacity 1, load factor 0.25 (`thr 1 = thr 2 = 0`, `thr 4 = 1`): the first insertion
 doubles twice -/
 example : ((HashTable.mk 1 0 0 [[]]).add ⟨fun k => k, fun cap => cap / 4, fun cap => cap * 2⟩ (some 5) 50 { live := 2 }).2.1.capacity = 4 := by
